@@ -367,7 +367,7 @@ func init() {
 			"Allocate_inRange results are required to be in the allocator's bounds and fresh, not inside the requested sub-range (the statement asks no more)",
 			"hook H1 (build tag verif) reports the allocator's real fields",
 		},
-		Oracles: map[string]func(*core.Ctx, *core.Case){"seq": c20Seq, "enum": c20Enum, "random": c20Random},
+		Oracles: map[string]func(*core.Ctx, *core.Case){"seq": c20Seq, "enum": c20Enum, "random": c20Random, "cold-concurrent": coldConcurrent},
 		Exhaustive: func(tier string) (bool, string) {
 			if tier == "thorough" {
 				return true, "all histories up to depth 4 (full alphabet, ranges 1..4) and depth 9 (reduced alphabet, ranges 1..3); longer histories sampled"
@@ -476,6 +476,7 @@ func init() {
 				}
 			}})
 		}
+		us = append(us, coldUnit("uePolicyContainer.IDGenerator", "count-alloc"))
 		return us
 	}
 	core.Register(p)
